@@ -391,6 +391,24 @@ class Interp:
             self.emit(label, 'spawn', [si, holder['label'], 1 if vol else 0] + when)
             self.task_by_label[holder['label']] = task
             holder['task'] = task
+        elif h == 'spawnplain':
+            # ['spawnplain', scope, task, volatile, cexpr]: `scope.do(<awaitable>)` - the payload is a plain awaitable (a notification,
+            # a condition), not a coroutine; it has no code of its own, so it logs nothing (judged only, the machine has no such task)
+            _, scn, tkn, vol, cx = s
+            scope = self.scopes.get(scn)
+            if scope is None:
+                self.emit(label, 'unbound')
+                return
+            task = scope.do(self.cond(cx), volatile=bool(vol))
+            lbl = 1000 + self.task_count
+            self.labels.add(lbl)
+            self.task_index[id(task)] = self.task_count
+            self.task_count += 1
+            self.tasks[tkn] = task
+            si = self.scope_inst_of.get(id(scope), -1)
+            self.scope_tasks.setdefault(si, []).append(task)
+            self.emit(label, 'spawn', [si, lbl, 1 if vol else 0, 0, 0, 1])
+            self.task_by_label[lbl] = task
         elif h == 'cancel':
             t = self.tasks.get(s[1])
             if t is None:
